@@ -222,7 +222,11 @@ func (g *streamGen) signal(kind string, allowNext bool, maxAt int) *Sig {
 	if t.Chance(3, 4) {
 		s.At = 1 + t.Draw(maxAt)
 	}
-	switch t.Weighted(6, 2, 2, 1, 1, 1, 1) {
+	switch t.Weighted(6, 2, 2, 1, 1, 1, 1, 1, 1) {
+	case 7:
+		s.Via = "forpost"
+	case 8:
+		s.Via = "whilecond"
 	case 1:
 		s.Via = "func"
 	case 2:
@@ -267,6 +271,9 @@ func (g *streamGen) traceProgram(noBodyOK bool, sigProb int, rerootOK bool) *TPr
 				r.NoBody = true
 			}
 		}
+		if (k == "BEGIN" || k == "END") && t.Chance(1, 4) {
+			r.SetDollar = true
+		}
 		if k == "BEGINFILE" && rerootOK && t.Chance(1, 4) {
 			r.Reroot = selectorPool[t.Draw(len(selectorPool))]
 		}
@@ -281,7 +288,20 @@ func (g *streamGen) traceProgram(noBodyOK bool, sigProb int, rerootOK bool) *TPr
 		}
 		rules = append(rules, r)
 	}
-	// the flag-setting BEGINFILE rule goes after every other BEGINFILE rule
+	// the flag-setting BEGINFILE rule goes after every other BEGINFILE rule; it is
+	// only needed when a pattern rule with a body exists (so programs made only of
+	// BEGIN/END rules do occur)
+	needFlag := false
+	for _, r := range rules {
+		if r.Kind == "PATTERN" && !r.NoBody {
+			needFlag = true
+		}
+	}
+	if !needFlag && t.Chance(1, 2) {
+		p.Rules = rules
+		fixNoBody(p)
+		return p
+	}
 	lastBF := -1
 	for i, r := range rules {
 		if r.Kind == "BEGINFILE" {
